@@ -68,8 +68,8 @@ def render_cell(c, world):
         if s[0] == "assign":
             lines.append("    t%d = %s" % (i, render_expr(s[1], world, c)))
         elif s[0] == "fin":
-            # (P)-only statement (not a constructor of Exec/Model.v): the clean-up expression runs while a failure
-            # of the protected expression passes through this formula
+            # SFin of Exec/Model.v: the clean-up expression runs also while a failure of the protected expression
+            # passes through this formula
             lines += ["    try:", "        t%d = %s" % (i, render_expr(s[1], world, c)),
                       "    finally:",
                       "        %s" % render_expr(s[2], world, c)]
@@ -124,7 +124,7 @@ def cexpr(e):
 
 
 def has_fin(case):
-    """the case uses the (P)-only statement try/finally somewhere: it has no term of Exec/Model.v"""
+    """the case uses the statement try/finally (SFin of Exec/Model.v) somewhere"""
     bodies = [c["body"] for c in case["world"]["cells"]] + [c.get("far_body") or [] for c in case["world"]["cells"]] + \
              [o[2]["body"] for o in case["ops"] if o[0] == "setf"]
     return any(st[0] == "fin" for b in bodies for st in b)
@@ -132,7 +132,7 @@ def has_fin(case):
 
 def cstmt(s):
     if s[0] == "fin":
-        raise ValueError("try/finally is not a statement of Exec/Model.v")
+        return "(SFin %s %s)" % (cexpr(s[1]), cexpr(s[2]))
     return "(SAssign %s)" % cexpr(s[1]) if s[0] == "assign" else "(STry %s %s)" % (cexpr(s[1]), cexpr(s[2]))
 
 
@@ -250,7 +250,7 @@ class Gen:
         self.recursion = kw.get("recursion", 0.3)
         self.try_calls = kw.get("try_calls", True)   # False: no calls inside try (was used to avoid the trigger of D20, repaired in /repo)
         self.p_derived = kw.get("p_derived", 0.0)    # cells realised as derived copies of a base space's cells
-        self.p_fin_world = kw.get("p_fin_world", 0.0)  # share of worlds whose formulas may use try/finally ((P)-only cases)
+        self.p_fin_world = kw.get("p_fin_world", 0.0)  # share of worlds whose formulas may use try/finally (SFin)
         self.fin = False
         self.p_shared_exc = kw.get("p_shared_exc", 0.0)   # share of worlds whose KeyError / ZeroDivisionError are ONE object each
 
